@@ -70,6 +70,16 @@ type World struct {
 	Panic   string // set if an operation panicked
 	Dead    bool   // resolve failed: history ends here
 	lazyM   func() *model.URL
+	// ML is what the parameter list must contain given the history: the form-urlencoded parse (by the
+	// model) of the implementation's own query at the last (re)initialisation point, then the standard's list
+	// operations. MLCap bounds the list length (appends beyond it are skipped on both sides).
+	ML    []model.Pair
+	MLCap int
+	// set by sp.sortabs: the oracle validates the permutation against PrevML and then adopts it
+	sortAbsPending bool
+	PrevML         []model.Pair
+	SortAbsGot     []model.Pair
+	Skipped        bool // the last operation was skipped because of the list-length cap
 }
 
 func NewWorld(start string) *World {
@@ -87,8 +97,13 @@ func NewWorld(start string) *World {
 	if o == model.OK {
 		w.M = m
 	}
+	w.ML = model.ParseURLEncoded(w.U.Query())
 	return w
 }
+
+func canon(s string) string { return string([]rune(s)) }
+
+func byteLess(a, b string) bool { return a < b }
 
 func isSetter(k string) bool {
 	switch k {
@@ -135,12 +150,16 @@ func (w *World) Apply(o Op) {
 	if w.Dead || w.Panic != "" {
 		return
 	}
+	w.Skipped = false
 	w.Panic = safely(func() {
 		switch {
 		case isSetter(o.Kind):
 			applyImplSetter(w.U, o.Kind, o.A)
 			if w.M != nil {
 				w.Cfg.ApplySetter(w.M, o.Kind, o.A)
+			}
+			if o.Kind == "search" {
+				w.ML = model.ParseURLEncoded(w.U.Query())
 			}
 		case o.Kind == "resolve":
 			r, err := w.U.Parse(o.A)
@@ -158,6 +177,7 @@ func (w *World) Apply(o Op) {
 			}
 			w.U = r
 			w.Handles = nil
+			w.ML = model.ParseURLEncoded(w.U.Query())
 			if mo == model.OK {
 				w.M = m
 			} else {
@@ -172,19 +192,33 @@ func (w *World) Apply(o Op) {
 		case o.Kind == "handle":
 			w.Handles = append(w.Handles, w.U.SearchParams())
 		case o.Kind == "sp.append":
+			if w.MLCap > 0 && len(w.ML) >= w.MLCap {
+				w.Skipped = true
+				return
+			}
 			w.handle(o.N).Append(o.A, o.B)
+			w.ML = model.ListAppend(w.ML, o.A, o.B)
 			w.M = nil
 		case o.Kind == "sp.set":
+			if w.MLCap > 0 && len(w.ML) >= w.MLCap && !model.ListHas(w.ML, o.A) {
+				w.Skipped = true
+				return
+			}
 			w.handle(o.N).Set(o.A, o.B)
+			w.ML = model.ListSet(w.ML, o.A, o.B)
 			w.M = nil
 		case o.Kind == "sp.delete":
 			w.handle(o.N).Delete(o.A)
+			w.ML = model.ListDelete(w.ML, o.A)
 			w.M = nil
 		case o.Kind == "sp.sort":
 			w.handle(o.N).Sort()
+			w.ML = model.ListSortStable(w.ML, byteLess)
 			w.M = nil
 		case o.Kind == "sp.sortabs":
 			w.handle(o.N).SortAbsolute()
+			w.PrevML = w.ML
+			w.sortAbsPending = true
 			w.M = nil
 		default:
 			panic("unknown op " + o.Kind)
@@ -192,12 +226,55 @@ func (w *World) Apply(o Op) {
 	})
 }
 
-func Replay(start string, ops []Op) *World {
+func Replay(start string, ops []Op) *World { return ReplayCap(start, ops, 0) }
+
+func ReplayCap(start string, ops []Op, mlcap int) *World {
 	w := NewWorld(start)
-	for _, o := range ops {
+	w.MLCap = mlcap
+	for i, o := range ops {
 		w.Apply(o)
+		if w.sortAbsPending && w.Panic == "" && !w.Dead {
+			// adopt the implementation's order after validating that it is a stable sort by name+value
+			got := readList(w.handle(o.N))
+			if i == len(ops)-1 {
+				w.SortAbsGot = got
+			}
+			w.ML = sortAbsExpected(w.PrevML)
+			w.sortAbsPending = false
+		}
 	}
 	return w
+}
+
+// sortAbsExpected: stable, non-decreasing in name||value (the implementation's documented "entire parameter"
+// order).
+func sortAbsExpected(l []model.Pair) []model.Pair {
+	out := append([]model.Pair(nil), l...)
+	for i := 1; i < len(out); i++ {
+		for j := i; j > 0 && out[j].Name+out[j].Value < out[j-1].Name+out[j-1].Value; j-- {
+			out[j], out[j-1] = out[j-1], out[j]
+		}
+	}
+	return out
+}
+
+// readList reads the live list through Iterate (which also re-runs the update steps).
+func readList(sp *url.SearchParams) []model.Pair {
+	var out []model.Pair
+	sp.Iterate(func(p *url.NameValuePair) { out = append(out, model.Pair{Name: p.Name, Value: p.Value}) })
+	return out
+}
+
+func pairsEqual(a, b []model.Pair) bool {
+	if len(a) != len(b) {
+		return false
+	}
+	for i := range a {
+		if canon(a[i].Name) != canon(b[i].Name) || canon(a[i].Value) != canon(b[i].Value) {
+			return false
+		}
+	}
+	return true
 }
 
 var keySnap = snap.New("Url.parser", "Url.inputUrl", "Url.validationErrors")
@@ -320,6 +397,9 @@ type Explore struct {
 	Kind string
 	// MaxFrontier bounds memory; when exceeded the level is cut and the run marked non-exhaustive.
 	MaxFrontier int
+	// MLCap bounds the parameter list length (0 = unbounded).
+	MLCap int
+	caseN []int
 }
 
 func (e *Explore) Run(c *fw.Ctx) {
@@ -387,16 +467,20 @@ func (e *Explore) Run(c *fw.Ctx) {
 // step executes one transition; returns the new history if it leads to a new, live, non-violating state.
 func (e *Explore) step(c *fw.Ctx, start string, hist []Op, op Op, seen map[uint64]struct{}) []Op {
 	nh := append(append(make([]Op, 0, len(hist)+1), hist...), op)
-	w := Replay(start, nh)
+	w := ReplayCap(start, nh, e.MLCap)
 	c.Eval()
 	c.R.Transitions++
 	c.R.Traces++
 	if c.WantSample(e.Label) && len(nh) >= 2 {
 		c.Sample(e.Label, histString(start, nh))
 	}
-	if f := e.Check(c, start, nh, w); f != nil {
-		c.Report(f, func() *fw.Case { return &fw.Case{Kind: e.Kind, S: fw.Strs(start), Ops: opsToQS(nh)} })
+	if w.Skipped {
 		return nil
+	}
+	if f := e.Check(c, start, nh, w); f != nil {
+		if !c.Report(f, func() *fw.Case { return &fw.Case{Kind: e.Kind, S: fw.Strs(start), Ops: opsToQS(nh), N: e.caseN} }) {
+			return nil
+		}
 	}
 	if w.Dead || w.Panic != "" {
 		return nil
